@@ -84,9 +84,13 @@ fn main() {
         }
     } else {
         let mut rng = Rng::new(args.seed);
-        let n_inputs = args.num("inputs", 100, 2500) as usize;
+        let n_inputs = args.num("inputs", 150, 2500) as usize;
         for i in 0..n_inputs {
-            let rc = if rng.chance(2, 3) { Recipe::random_program(&mut rng) } else { Recipe::random_gadget(&mut rng) };
+            let rc = match rng.below(12) {
+                0..=6 => Recipe::random_program(&mut rng),
+                7 => Recipe::random_shared(&mut rng),
+                _ => Recipe::random_gadget(&mut rng),
+            };
             let avail: &Vec<String> = if rc.cfg_lkm { &avail_lkm } else { &all_names };
             jobs.push(Job { input_id: i, partial: None, tag: "default" });
             jobs.push(Job { input_id: i, partial: Some(avail.join(",")), tag: "all" });
